@@ -209,3 +209,19 @@ Print Assumptions C16_beta_is_b.
 Theorem C16_tag_number_default : forall (v v' : bool) (ds : list (list N)) (sep sep' : list N) (t : btag), ds <> [] -> Forall dstr ds -> sep_ok sep -> sep_ok sep' -> version_key (tagged v ds sep t []) = version_key (tagged v' ds sep' t [48%N]).
 Proof. exact tag_number_default. Qed.
 Print Assumptions C16_tag_number_default.
+
+(* the premises of the tagged theorems are satisfiable: 1.2.3-beta1 is such a string, and the order theorem
+   gives 1.2.3-beta1 < 1.2.3-rc0 < 1.2.3 < 1.2.3-post0 without evaluating the comparison *)
+From Coq Require Import Strings.String.
+From BV Require Import Lib.StrLit.
+Example C16_tagged_premises :
+  let ds := [[49%N]; [50%N]; [51%N]] in
+  ds <> [] /\ Forall dstr ds /\ TaggedFacts.sep_ok [45%N] /\ all_digits [49%N] = true
+  /\ tagged false ds [45%N] Tbeta [49%N] = lit "1.2.3-beta1"
+  /\ untagged false ds = lit "1.2.3".
+Proof.
+  cbv zeta. repeat split; try discriminate; try reflexivity.
+  - repeat constructor; try discriminate.
+  - right; left; reflexivity.
+Qed.
+Print Assumptions C16_tagged_premises.
